@@ -48,6 +48,10 @@ struct Fix {
     Obj<ST::string_stream> ss; S ssv;
     std::string stds;
     std::wstring stdw;
+    // ill-formed text (what makes the repairing / substituting paths allocate) and its expected repair
+    S bad8, bad8fix;
+    std::u16string bad16; S bad16fix;
+    std::u32string bad32; S bad32fix;
     bool stream_prefix_ok = false;   // the operation consists of several appends: after a fault any extension of the previous content is fine
     bool stream_moved = false;       // the operation moves the stream away: only structural validity is required of it
     Rng *r;
@@ -74,6 +78,22 @@ struct Fix {
         ss->append(ssv.data(), ssv.size());
         stds = sv[1];
         stdw = bwv;
+        {
+            static const char *const junk[] = {"\x80", "\xC3", "\xE2\x82", "\xF0\x9F\x98", "\xFF", "\xC0\x80", "\xF4\x90\x80\x80"};
+            const size_t pieces = long_arg ? 6 + rng.below(20) : 1 + rng.below(2);
+            bad8.clear(); bad16.clear(); bad32.clear();
+            for (size_t i = 0; i < pieces; ++i) {
+                bad8 += text(rng.below(long_arg ? 9 : 3));
+                bad8 += junk[rng.below(sizeof(junk) / sizeof(junk[0]))];
+                for (size_t k = rng.below(4); k-- > 0;) { bad16 += static_cast<char16_t>('a' + rng.below(26)); bad32 += static_cast<char32_t>(0x100 + rng.below(0x400)); }
+                bad16 += static_cast<char16_t>(rng.chance(1, 2) ? 0xD800 + rng.below(0x400) : 0xDC00 + rng.below(0x400));
+                bad16 += u'-';
+                bad32 += static_cast<char32_t>(0x110000 + rng.below(100));
+            }
+            bad8fix = ref::cleanup_utf8(bad8);
+            bad16fix.clear(); ref::to_utf8(ref::decode_utf16(bad16.data(), bad16.size()), false, bad16fix);
+            bad32fix.clear(); ref::to_utf8(ref::decode_utf32(bad32.data(), bad32.size()), false, bad32fix);
+        }
     }
     void teardown()
     {
@@ -184,6 +204,22 @@ static std::vector<Op> table()
     OP("string=std::wstring", *f.s[0] = f.stdw; E(f.sv[0] = f.sv[1]));
     OP("string.set(string)", f.s[0]->set(*f.s[1]); E(f.sv[0] = f.sv[1]));
     OP("string.set(const char*,n,substitute_invalid)", f.s[0]->set(f.stds.c_str(), f.stds.size(), ST::substitute_invalid); E(f.sv[0] = f.stds));
+    // ... the same with ill-formed text, where the repairing (substitute_invalid) paths make their own allocations
+    OP("string.set(const char*,n,substitute_invalid) ill-formed", f.s[0]->set(f.bad8.data(), f.bad8.size(), ST::substitute_invalid); E(f.sv[0] = f.bad8fix));
+    OP("string.set(char_buffer&&,substitute_invalid) ill-formed", ST::char_buffer tmp(f.bad8.data(), f.bad8.size()); f.s[0]->set(std::move(tmp), ST::substitute_invalid); E(f.sv[0] = f.bad8fix));
+    OP("string.set(const char_buffer&,substitute_invalid) ill-formed", ST::char_buffer tmp(f.bad8.data(), f.bad8.size()); f.s[0]->set(tmp, ST::substitute_invalid); E(f.sv[0] = f.bad8fix));
+    OP("string.set(std::string,substitute_invalid) ill-formed", f.s[0]->set(f.bad8, ST::substitute_invalid); E(f.sv[0] = f.bad8fix));
+    OP("string(const char*,n,substitute_invalid) ill-formed", ST::string x(f.bad8.data(), f.bad8.size(), ST::substitute_invalid); (void)x);
+    OP("string(char_buffer&&,substitute_invalid) ill-formed", ST::char_buffer tmp(f.bad8.data(), f.bad8.size()); ST::string x(std::move(tmp), ST::substitute_invalid); (void)x);
+    OP("string.set(const char16_t*,n,substitute_invalid) ill-formed", f.s[0]->set(f.bad16.data(), f.bad16.size(), ST::substitute_invalid); E(f.sv[0] = f.bad16fix));
+    OP("string.set(const char32_t*,n,substitute_invalid) ill-formed", f.s[0]->set(f.bad32.data(), f.bad32.size(), ST::substitute_invalid); E(f.sv[0] = f.bad32fix));
+    OP("string+=string repaired from ill-formed UTF-16", ST::string x = ST::string::from_utf16(f.bad16.data(), f.bad16.size(), ST::substitute_invalid); *f.s[0] += x; E(f.sv[0] += f.bad16fix));
+    OP("from_utf8/16/32 ill-formed, substitute_invalid", ST::string a = ST::string::from_utf8(f.bad8.data(), f.bad8.size(), ST::substitute_invalid);
+       ST::string b = ST::string::from_utf16(f.bad16.data(), f.bad16.size(), ST::substitute_invalid); ST::string c = ST::string::from_utf32(f.bad32.data(), f.bad32.size(), ST::substitute_invalid); (void)a; (void)b; (void)c);
+    OP("utf8_to_utf16/32/latin_1 ill-formed, substitute_invalid", ST::utf16_buffer a = ST::utf8_to_utf16(f.bad8.data(), f.bad8.size(), ST::substitute_invalid);
+       ST::utf32_buffer b = ST::utf8_to_utf32(f.bad8.data(), f.bad8.size(), ST::substitute_invalid); ST::char_buffer c = ST::utf8_to_latin_1(f.bad8.data(), f.bad8.size(), ST::substitute_invalid); (void)a; (void)b; (void)c);
+    OP("utf16/32_to_utf8 ill-formed, substitute_invalid", ST::char_buffer a = ST::utf16_to_utf8(f.bad16.data(), f.bad16.size(), ST::substitute_invalid);
+       ST::char_buffer b = ST::utf32_to_utf8(f.bad32.data(), f.bad32.size(), ST::substitute_invalid); (void)a; (void)b);
     OP("string.set_validated", f.s[0]->set_validated(f.stds.c_str(), f.stds.size()); E(f.sv[0] = f.stds));
     OP("string+string", ST::string x = *f.s[0] + *f.s[1]; (void)x);
     OP("string+const char*", ST::string x = *f.s[0] + f.stds.c_str(); (void)x);
@@ -270,7 +306,7 @@ static void body()
 {
     vrt::require("faults.injected", 500);
     vrt::require("faults.bad_alloc_reached_caller", 500);
-    vrt::require("ops.covered", 90);
+    vrt::require("ops.covered", 100);
     static const std::vector<Op> ops = table();
     const size_t nvar = vrt::tier_count(8, 60);      // random fillings per (operation, storage-mode combination)
     vrt::note(sfmt("fault enumeration: %zu allocating operations x 4 storage-mode combinations (short/long target x short/long argument) x %zu random fillings x every allocation index k = 1..N of the call", ops.size(), nvar));
